@@ -432,6 +432,13 @@ void gen_bs(FILE * f, Rng & r, int nconf)
     go(tmax + 1e3 * dt + 1.0, "far_above");
     go(t0 - 1e15 * dt, "far_below_1e15dt");
     go(tmax + 1e15 * dt, "far_above_1e15dt");
+    // beyond the int64 range of the quotient (t - t0)/dt
+    go(tmax + 1.01 * 9223372036854775808.0 * dt, "far_above_2^63dt");
+    go(t0 - 1.01 * 9223372036854775808.0 * dt, "far_below_2^63dt");
+    go(1e300, "far_above_1e300");
+    go(-1e300, "far_below_1e300");
+    go(inf, "plus_inf");
+    go(-inf, "minus_inf");
     for (int k = 0; k < 4; ++k) go(t0 + r.uni() * double(nk) * dt, "inside");
     {
       std::vector<double> x{double(K), double(N), t0, dt};
